@@ -23,7 +23,7 @@ Explains(e) ==
      \/ e.op = "d.cmp"  /\ e.c = Cmp(J(e.a), J(e.b)) /\ e.eq = (J(e.a) = J(e.b))
      \/ e.op = "d.fromstd" /\ OptD(e.r) = FromStd(J(e.secs), J(e.nanos))
      \/ e.op = "d.tostd" /\ (IF ToStdOk(J(e.a)) THEN ~IsNone(e.r) /\ Add(Mul1e9(J(e.r.secs)), J(e.r.nanos)) = J(e.a) /\ Lt(J(e.r.nanos), NSb) ELSE IsNone(e.r))
-     \/ e.op = "d.show" /\ e.text = Show(J(e.a))
+     \/ e.op = "d.show" /\ e.text = Show(J(e.a)) /\ (Has(e, "t2") => e.t2 = e.text /\ e.t3 = e.text)
      \/ e.op = "d.const" /\ J(e.min) = Neg(DurLim) /\ J(e.max) = DurLim /\ IsZero(J(e.zero))
      \* sessions: operator chains on the register
      \/ e.op = "s.set"  /\ TRUE
